@@ -282,6 +282,40 @@ def _run_noise(case):
                         "levy_noise_shared_between_batch_elements",
                         f"the random part of A{(a, b)} coincides for two batch elements of a sample of shape {list(shape)}",
                         sig))
+    # every Levy-area entry above the diagonal has its own noise element: bumping one element of the area noise of row r may
+    # change one entry A_ij (and its mirror A_ji) of that row, and every entry must be reachable that way on its own
+    m_ = shape[-1]
+    if len(shape) == 2 and 3 <= m_ <= 5 and base and base[0][2] is not None:
+        levy_sizes = sorted(sz for szs in seed_sizes.values() for sz in szs if tuple(sz) != tuple(shape))
+        if levy_sizes:
+            lsz = levy_sizes[0]
+            import itertools
+            slots = list(itertools.product(*[range(k_) for k_ in lsz[1:]]))
+            own = set()
+            q0 = [q for q in queries if q[0] < q[1]][:1]
+            for slot in slots:
+                real = bi._randn
+
+                def fake2(size, dtype, device, seed, slot=slot):
+                    out = real(size, dtype, device, seed)
+                    if tuple(size) == tuple(lsz):
+                        out[(r,) + slot] += 0.7
+                    return out
+                with brownian_tools.patched(bi, "_randn", fake2):
+                    bm2, _, _ = history.build(cfg, torchsde, torch)
+                    A2 = bm2(*q0[0])[2]
+                changed = {(min(i_, j_), max(i_, j_)) for i_ in range(m_) for j_ in range(m_)
+                           if i_ != j_ and not torch.equal(A2[r, i_, j_], base[queries.index(q0[0])][2][r, i_, j_])}
+                if len(changed) == 1:
+                    own |= changed
+            checks += 1
+            need = {(i_, j_) for i_ in range(m_) for j_ in range(i_ + 1, m_)}
+            if own != need:
+                return Result(nontrivial=True, checks=checks, fail=Fail(
+                    "levy_entries_share_noise_elements",
+                    f"area noise of shape {list(lsz)} for a sample of shape {list(shape)}: only the entries {sorted(own)} of A "
+                    f"can be moved on their own by changing one noise element; {sorted(need - own)} cannot (they are driven by "
+                    f"noise elements shared with other entries)", sig))
     if not reacted:
         return Result(nontrivial=True, checks=checks, fail=Fail(
             "noise_row_not_driven", f"row {r} of W did not react to its own noise in any of {len(queries)} queries", sig))
